@@ -418,6 +418,17 @@ def get_odesys(
                 else:  # fcomp < 0
                     h.append(-_y[idx] / fcomp)
             min_h = min(h)
+            if min_h != float("inf"):
+                # the step above is in the internal (possibly scaled) independent variable
+                import numpy as np
+
+                xs = odesys.post_process(
+                    np.array([_x[0], _x[0] + min_h]), np.array([_y, _y]), _p
+                )[0]
+                min_h = xs[1] - xs[0]
+                if unit_registry is not None:
+                    min_h = to_unitless(min_h, get_derived_unit(unit_registry, "time"))
+                min_h = float(min_h)
             return min(min_h, 1)
 
         def linear_dependencies(preferred=None):
